@@ -157,6 +157,43 @@ pub fn array_input_system() -> SysSpec {
     }
 }
 
+/// Every two-operator term (T2: every operator over every one-operator term and leaves, plus the two-child
+/// nestings, arrays included) of a small universe as the root of a system of its own: output, next function of
+/// a state of its type and, when it is one bit wide, bad state. The sweeps only ever put one-operator terms
+/// into a slot; a pass that rebuilds parents from rewritten children meets grand-children only here.
+pub fn t2_root_systems(universes: &[Vec<u32>], arrays: &[(u32, u32)]) -> Vec<SysSpec> {
+    let mut out = vec![];
+    let mut seen = std::collections::HashSet::new();
+    for u in universes {
+        let mut cfg = Cfg::new(u);
+        cfg.lits = Lits::Reduced;
+        cfg.ext_by = vec![1];
+        cfg.divrem = true;
+        cfg.arrays = arrays.to_vec();
+        let mut terms: Vec<T> = vec![];
+        for x in t1(&cfg) {
+            terms.extend(wrap_all(&x, &cfg));
+        }
+        terms.extend(t2_pairs(&cfg));
+        for t in terms {
+            if !seen.insert(t.to_string()) {
+                continue;
+            }
+            let ty = t.ty();
+            let w1 = ty == Ty::Bv(1);
+            out.push(SysSpec {
+                name: "T2root".into(),
+                inputs: t.symbols(),
+                states: vec![StateSpec { name: "r_state".into(), ty, init: None, next: Some(t.clone()) }],
+                outputs: if matches!(ty, Ty::Bv(_)) { vec![("o".into(), t.clone())] } else { vec![] },
+                bads: if w1 { vec![t.clone()] } else { vec![] },
+                constraints: vec![],
+            });
+        }
+    }
+    out
+}
+
 pub fn spec_key(sp: &SysSpec) -> String {
     let mut v = sp.to_json();
     v["name"] = serde_json::Value::Null;
@@ -211,6 +248,8 @@ pub fn system_family(tier: Tier, divrem: bool) -> Vec<SysSpec> {
         }
     }
     out.extend(unnamed_variants(&out, n_hand, 7));
+    let offs = offset_variants(&out, n_hand, 9);
+    out.extend(offs);
     out
 }
 
